@@ -299,3 +299,36 @@ func VerifDataURI() {
 	}
 	vReach("datauri")
 }
+
+// VerifMediatypeParams: a well-formed unquoted media type with up to two parameters and
+// solver-chosen optional spaces around ';' and '=': mimetype and every parameter are returned
+// (as mime.ParseMediaType does for such values).
+func VerifMediatypeParams() {
+	sp := func(tag string) []byte {
+		if vRange(tag, 0, 1) == 1 {
+			return []byte{' '}
+		}
+		return nil
+	}
+	src := []byte("a/b")
+	np := vRange("params", 0, 2)
+	keys := []string{"k", "q"}
+	vals := []string{"v", "w1"}
+	for i := 0; i < np; i++ {
+		src = append(src, sp("s1")...)
+		src = append(src, ';')
+		src = append(src, sp("s2")...)
+		src = append(src, keys[i]...)
+		src = append(src, '=')
+		src = append(src, vals[i]...)
+	}
+	src = append(src, sp("s3")...)
+	mt, params := Mediatype(append([]byte(nil), src...))
+	vAssert(string(mt) == "a/b", "mediatype-mimetype")
+	vAssert(len(params) == np, "mediatype-parameter-count")
+	for i := 0; i < np; i++ {
+		v, ok := params[keys[i]]
+		vAssert(ok && v == vals[i], "mediatype-parameter-lost")
+	}
+	vReach("params")
+}
